@@ -383,13 +383,13 @@ def slicedNotNew (n : Node) (plans : List AxisPlan) : Prop :=
 
 /-- **`Blockwise.chunks` of the rewritten node = the chunks of the kept output blocks.** -/
 theorem rewritten_chunks (n : Node) (oc : List (List Int)) (idx : List Idx) (r : Result)
-    (hch : nodeChunks n = some oc) (h : acceptCoarse n oc idx = some r)
+    (hch : nodeChunks n = some oc) (h : acceptCoarse0 n oc idx = some r)
     (hoc : ∀ cs ∈ oc, ∀ c ∈ cs, 0 ≤ c) (hnd : n.outInd.Nodup) (hil : idx.length ≤ n.outInd.length)
     (hok : idxsOK oc (fullIndex idx n.outInd.length) = true)
     (hkeep : keepsAll n.outInd r.plans n.ops = true) (hnew : slicedNotNew n r.plans) :
     nodeChunks (rewritten n r) = some (keptOut oc r.plans) := by
   have hlen : oc.length = n.outInd.length := mapOpt_length _ _ _ hch
-  unfold acceptCoarse at h
+  unfold acceptCoarse0 at h
   try simp only at h
   cases hp : axisPlans oc (fullIndex idx n.outInd.length) with
   | none => rw [hp] at h; simp at h
@@ -696,7 +696,7 @@ theorem top_chunks_nd : ∀ (oc : List (List Int)) (idx : List Idx) (plans : Lis
 theorem accept_sound_pos {α β : Type} (F : List (List Nat → Blk α) → List Int → β) (outInd : List Nat)
     (ops : List (Operand α)) (adjust : List (Nat × AdjKind)) (newAxes : List (Nat × List Int))
     (oc : List (List Int)) (idx : List Idx) (r : Result)
-    (h : acceptCoarse ⟨outInd, ops.map Operand.toOpd, adjust, newAxes⟩ oc idx = some r)
+    (h : acceptCoarse0 ⟨outInd, ops.map Operand.toOpd, adjust, newAxes⟩ oc idx = some r)
     (hoc : ∀ cs ∈ oc, ∀ c ∈ cs, 0 ≤ c) (hlen : oc.length = outInd.length) (hil : idx.length ≤ outInd.length)
     (hok : idxsOK oc (fullIndex idx outInd.length) = true)
     (hpos : ∀ q ∈ chunkPairs (ops.map Operand.toOpd), ∀ c ∈ q.2, 0 < c)
@@ -705,7 +705,7 @@ theorem accept_sound_pos {α β : Type} (F : List (List Nat → Blk α) → List
       = rewrittenDen F outInd ops (keptOut oc r.plans) r q := by
   have hkeep : keepsAll outInd r.plans (ops.map Operand.toOpd) = true := by
     have h' := h
-    unfold acceptCoarse at h'
+    unfold acceptCoarse0 at h'
     simp only at h'
     cases hp : axisPlans oc (fullIndex idx outInd.length) with
     | none => rw [hp] at h'; simp at h'
@@ -726,7 +726,7 @@ every sliced operand axis (operand chunks only need to be `≥ 0`) -/
 theorem accept_sound_fired {α β : Type} (F : List (List Nat → Blk α) → List Int → β) (outInd : List Nat)
     (ops : List (Operand α)) (adjust : List (Nat × AdjKind)) (newAxes : List (Nat × List Int))
     (oc : List (List Int)) (idx : List Idx) (r : Result)
-    (h : acceptCoarse ⟨outInd, ops.map Operand.toOpd, adjust, newAxes⟩ oc idx = some r)
+    (h : acceptCoarse0 ⟨outInd, ops.map Operand.toOpd, adjust, newAxes⟩ oc idx = some r)
     (hoc : ∀ cs ∈ oc, ∀ c ∈ cs, 0 ≤ c) (hlen : oc.length = outInd.length) (hil : idx.length ≤ outInd.length)
     (hok : idxsOK oc (fullIndex idx outInd.length) = true)
     (hnn : ∀ q ∈ chunkPairs (ops.map Operand.toOpd), ∀ c ∈ q.2, 0 ≤ c)
@@ -735,7 +735,7 @@ theorem accept_sound_fired {α β : Type} (F : List (List Nat → Blk α) → Li
       = rewrittenDen F outInd ops (keptOut oc r.plans) r q := by
   have hkeep : keepsAll outInd r.plans (ops.map Operand.toOpd) = true := by
     have h' := h
-    unfold acceptCoarse at h'
+    unfold acceptCoarse0 at h'
     simp only at h'
     cases hp : axisPlans oc (fullIndex idx outInd.length) with
     | none => rw [hp] at h'; simp at h'
@@ -753,7 +753,7 @@ theorem accept_sound_fired {α β : Type} (F : List (List Nat → Blk α) → Li
 
 /-- … and the chunk statement with it -/
 theorem rewritten_chunks_pos (n : Node) (oc : List (List Int)) (idx : List Idx) (r : Result)
-    (hch : nodeChunks n = some oc) (h : acceptCoarse n oc idx = some r)
+    (hch : nodeChunks n = some oc) (h : acceptCoarse0 n oc idx = some r)
     (hoc : ∀ cs ∈ oc, ∀ c ∈ cs, 0 < c) (hnd : n.outInd.Nodup) (hil : idx.length ≤ n.outInd.length)
     (hok : idxsOK oc (fullIndex idx n.outInd.length) = true)
     (hpos : ∀ q ∈ chunkPairs n.ops, ∀ c ∈ q.2, 0 < c) (hnew : slicedNotNew n r.plans) :
@@ -761,7 +761,7 @@ theorem rewritten_chunks_pos (n : Node) (oc : List (List Int)) (idx : List Idx) 
     indexedChunks (keptOut oc r.plans) (r.plans.map (·.adj.toIdx)) = indexedChunks oc (fullIndex idx n.outInd.length) := by
   have hoc' : ∀ cs ∈ oc, ∀ c ∈ cs, 0 ≤ c := fun cs hcs c hc => Int.le_of_lt (hoc cs hcs c hc)
   have h' := h
-  unfold acceptCoarse at h'
+  unfold acceptCoarse0 at h'
   try simp only at h'
   cases hp : axisPlans oc (fullIndex idx n.outInd.length) with
   | none => rw [hp] at h'; simp at h'
@@ -782,13 +782,13 @@ theorem rewritten_chunks_pos (n : Node) (oc : List (List Int)) (idx : List Idx) 
 
 /-- `Blockwise.chunks` of the rewritten node, from the fired rule alone (operand chunks `≥ 0`) -/
 theorem rewritten_chunks_fired (n : Node) (oc : List (List Int)) (idx : List Idx) (r : Result)
-    (hch : nodeChunks n = some oc) (h : acceptCoarse n oc idx = some r)
+    (hch : nodeChunks n = some oc) (h : acceptCoarse0 n oc idx = some r)
     (hoc : ∀ cs ∈ oc, ∀ c ∈ cs, 0 ≤ c) (hnd : n.outInd.Nodup) (hil : idx.length ≤ n.outInd.length)
     (hok : idxsOK oc (fullIndex idx n.outInd.length) = true)
     (hnn : ∀ q ∈ chunkPairs n.ops, ∀ c ∈ q.2, 0 ≤ c) (hnew : slicedNotNew n r.plans) :
     keepsAll n.outInd r.plans n.ops = true ∧ nodeChunks (rewritten n r) = some (keptOut oc r.plans) := by
   have h' := h
-  unfold acceptCoarse at h'
+  unfold acceptCoarse0 at h'
   try simp only at h'
   cases hp : axisPlans oc (fullIndex idx n.outInd.length) with
   | none => rw [hp] at h'; simp at h'
@@ -807,7 +807,7 @@ theorem rewritten_chunks_fired (n : Node) (oc : List (List Int)) (idx : List Idx
 
 /-- … and the chunks after the top adjustment (positive OUTPUT chunks) -/
 theorem rewritten_chunks_top_fired (n : Node) (oc : List (List Int)) (idx : List Idx) (r : Result)
-    (hch : nodeChunks n = some oc) (h : acceptCoarse n oc idx = some r)
+    (hch : nodeChunks n = some oc) (h : acceptCoarse0 n oc idx = some r)
     (hoc : ∀ cs ∈ oc, ∀ c ∈ cs, 0 < c) (hnd : n.outInd.Nodup) (hil : idx.length ≤ n.outInd.length)
     (hok : idxsOK oc (fullIndex idx n.outInd.length) = true)
     (hnn : ∀ q ∈ chunkPairs n.ops, ∀ c ∈ q.2, 0 ≤ c) (hnew : slicedNotNew n r.plans) :
@@ -816,7 +816,7 @@ theorem rewritten_chunks_top_fired (n : Node) (oc : List (List Int)) (idx : List
   have hoc' : ∀ cs ∈ oc, ∀ c ∈ cs, 0 ≤ c := fun cs hcs c hc => Int.le_of_lt (hoc cs hcs c hc)
   refine ⟨(rewritten_chunks_fired n oc idx r hch h hoc' hnd hil hok hnn hnew).2, ?_⟩
   have h' := h
-  unfold acceptCoarse at h'
+  unfold acceptCoarse0 at h'
   try simp only at h'
   cases hp : axisPlans oc (fullIndex idx n.outInd.length) with
   | none => rw [hp] at h'; simp at h'
